@@ -4,6 +4,8 @@ package rules
 
 import (
 	"fmt"
+	"go/types"
+	"golang.org/x/tools/go/ssa"
 	"sort"
 
 	"jsverif/internal/obl"
@@ -13,12 +15,14 @@ import (
 
 // Ctx is what a property check works with.
 type Ctx struct {
-	R      *obl.Report
-	P      *prog.Program
-	Deep   bool
-	m      *scanfsm.Machine
-	an     map[string]*scanfsm.Analysis
-	stackF *stackFacts
+	R                *obl.Report
+	P                *prog.Program
+	Deep             bool
+	m                *scanfsm.Machine
+	an               map[string]*scanfsm.Analysis
+	stackF           *stackFacts
+	includeValidator *types.Func
+	pureNN           map[*ssa.Function]int
 }
 
 type propFunc func(c *Ctx)
